@@ -24,7 +24,7 @@ ordinary statement:
   regenerated grammar, then the pair-tree walk of `parse_asm` with its 24
   `unwrap` / `unreachable!` / `assert!` sites) reaches none of those sites: the
   interpreter is sound for a token-shape / matched-text semantics of grammar
-  expressions (`PestShape.sound`), the regenerated grammar's rules satisfy the
+  expressions (`PestShape.shape_sound`), the regenerated grammar's rules satisfy the
   shape specification the walk relies on (`GrammarClosed.spec_closed`, rule by
   rule), and on such trees the walk returns a value or an error (`ParseGood`);
 * `C14_ingest`: hence the whole text-to-bytes path of the model (`preprocess` and
